@@ -41,7 +41,17 @@ def frame_toks(items):
                                    for k, vs in items)
 
 
-def gen_location(rng, yamlable=False):
+def gen_location(rng, yamlable=False, rich=False):
+    """`rich` (only C01 asks for it; the draw stream and the results are unchanged without it): the same location
+    forms in other accepted containers / value types (int point, tuple, numpy arrays), GeoJSON features of type
+    `Polygon`, and a feature property `w` whose name is also an attribute name of the groups"""
+    form, loc = _gen_location(rng, yamlable, rich)
+    if rich:
+        loc = _vary_location(rng, form, loc)
+    return form, loc
+
+
+def _gen_location(rng, yamlable=False, rich=False):
     form = rng.choice(["point", "point", "poly", "multi", "offset", "geojson"])
     if form == "point":
         return form, [round(rng.uniform(-20, 30), 4), round(rng.uniform(50, 75), 4)]
@@ -67,18 +77,70 @@ def gen_location(rng, yamlable=False):
                 props[name] = rng.choice([f + 1, 2.5 * (f + 1)])
         if rng.random() < 0.4:
             props["name"] = "farm %d" % f           # a text-valued property
-        feats.append(dict(type="Feature", properties=props, geometry=dict(type="MultiPolygon", coordinates=[[ring(p)] for p in ps])))
+        if rich and rng.random() < 0.3:
+            props["w"] = 100.0 + f                  # a property named like an attribute of the groups
+        geometry = dict(type="MultiPolygon", coordinates=[[ring(p)] for p in ps])
+        if rich and len(ps) == 1 and rng.random() < 0.4:
+            geometry = dict(type=rng.choice(["Polygon", "polygon"]), coordinates=[ring(ps[0])])
+        feats.append(dict(type="Feature", properties=props, geometry=geometry))
     return form, json.dumps(dict(type="FeatureCollection", features=feats))
 
 
-def gen_attr(rng, num, yamlable=False):
+def _vary_seq(rng, xs):
+    """the same number sequence as list / tuple / numpy array"""
+    k = rng.choice(["list", "list", "tuple", "array"])
+    return xs if k == "list" else tuple(xs) if k == "tuple" else np.array(xs, dtype=float)
+
+
+def _vary_location(rng, form, loc):
+    if form == "point":
+        k = rng.choice(["float", "float", "int", "tuple", "npfloat"])
+        if k == "int":
+            return [rng.randrange(-20, 30), rng.randrange(50, 75)]       # as in the documented `location: [5, 60]`
+        if k == "tuple":
+            return tuple(loc)
+        if k == "npfloat":
+            return [np.float64(loc[0]), np.float64(loc[1])]
+        return loc
+    if form == "poly":
+        k = rng.choice(["list", "list", "seq", "array2d", "tuple"])
+        if k == "seq":
+            return [_vary_seq(rng, loc[0]), _vary_seq(rng, loc[1])]
+        if k == "array2d":
+            return np.array(loc, dtype=float)
+        if k == "tuple":
+            return (tuple(loc[0]), tuple(loc[1]))
+        return loc
+    if form == "multi":
+        if rng.random() < 0.4:
+            return [[_vary_seq(rng, p) for p in loc[0]], [_vary_seq(rng, p) for p in loc[1]]]
+        return loc
+    if form == "offset":
+        d = dict(loc)
+        k = rng.choice(["float", "int", "tuple"])
+        if k == "int":
+            d["center"] = [5, 60]
+        elif k == "tuple":
+            d["center"] = (5.0, 60.0)
+        if rng.random() < 0.4:
+            d["offset"] = [_vary_seq(rng, loc["offset"][0]), _vary_seq(rng, loc["offset"][1])]
+        return d
+    return loc
+
+
+def gen_attr(rng, num, yamlable=False, rich=False):
     k = rng.choice(["const", "list", "range", "gauss", "exp", "piece"] + ([] if yamlable else ["callable", "dotted"]))
     if k == "const":
-        return rng.choice([0, 1.5, 7, -2])
+        v = rng.choice([0, 1.5, 7, -2])
+        if rich and rng.random() < 0.2:
+            v = np.float64(v)
+        return v
     if k == "list":
-        return [float(rng.randrange(0, 50)) for _ in range(num)]
+        v = [float(rng.randrange(0, 50)) for _ in range(num)]
+        return _vary_seq(rng, v) if rich else v
     if k == "range":
-        lo = rng.choice([0.0, 10.0]); return [lo, lo + rng.choice([1.0, 20.0])]
+        lo = rng.choice([0.0, 10.0]); v = [lo, lo + rng.choice([1.0, 20.0])]
+        return _vary_seq(rng, v) if rich else v
     if k == "gauss":
         return dict(distribution="gaussian", mean=rng.choice([5.0, 40.0]), std=rng.choice([1.0, 10.0]))
     if k == "exp":
@@ -90,36 +152,98 @@ def gen_attr(rng, num, yamlable=False):
     return "numpy.arange"
 
 
-def gen_date(rng):
+def gen_date(rng, rich=False):
     base = np.datetime64("2015-04-01T00:00:00") + np.timedelta64(rng.randrange(0, 10), "D") + np.timedelta64(rng.randrange(0, 24), "h")
+    if rich and rng.random() < 0.4:
+        return _gen_date_typed(rng, base)
     if rng.random() < 0.3:
         return str(base).replace("T", rng.choice(["T", " "]))
     stop = base + np.timedelta64(rng.choice([0, 3600, 86400, 7 * 86400, 100]), "s")
     return [str(base).replace("T", rng.choice(["T", " "])), str(stop)]
 
 
-def gen_group(rng, g, yamlable=False, force_num=None):
+def _gen_date_typed(rng, base):
+    """the other accepted date types (C02 judges the dates themselves; here they put date strings of different
+    resolution into one table): date-only strings, date / datetime objects, datetime64 of several units,
+    sub-second strings; pairs as list or tuple; start and stop may be of different kinds"""
+    import datetime
+
+    def one(t):
+        k = rng.choice(["day", "date", "datetime", "dt64s", "dt64ms", "dt64D", "msstr"])
+        if k == "day":
+            return str(t.astype("datetime64[D]"))
+        if k == "date":
+            return t.astype("datetime64[D]").astype(object)
+        if k == "datetime":
+            return (t.astype("datetime64[us]") + np.timedelta64(rng.choice([0, 500000]), "us")).astype(object)
+        if k == "dt64s":
+            return t.astype("datetime64[s]")
+        if k == "dt64ms":
+            return t.astype("datetime64[ms]") + np.timedelta64(rng.choice([0, 250]), "ms")
+        if k == "dt64D":
+            return t.astype("datetime64[D]")
+        return str(t.astype("datetime64[ms]") + np.timedelta64(rng.choice([0, 250]), "ms"))
+
+    if rng.random() < 0.3:
+        return one(base)
+    # the stop is at least a day later, so that truncating either end to its day keeps start <= stop
+    stop = base + np.timedelta64(rng.choice([1, 2, 7]), "D") + np.timedelta64(rng.choice([0, 3600, 100]), "s")
+    pair = [one(base), one(stop)]
+    return tuple(pair) if rng.random() < 0.3 else pair
+
+
+def gen_group(rng, g, yamlable=False, force_num=None, rich=False):
+    """`rich` (C01 only): other value / container types, a numpy integer `num`, the oracle's markers as implicit
+    attributes (then possibly no `attrs` mapping at all), attributes named like GeoJSON feature properties"""
     num = force_num if force_num is not None else rng.choice([0, 1, 2, 3, 5, 12, 40])
-    form, loc = gen_location(rng, yamlable)
-    conf = dict(num=num, date=gen_date(rng), location=loc)
+    if rich and rng.random() < 0.1:
+        num = np.int64(num)
+    form, loc = gen_location(rng, yamlable, rich) if rich else gen_location(rng, yamlable)
+    conf = dict(num=num, date=gen_date(rng, rich) if rich else gen_date(rng), location=loc)
+    ga = (lambda: gen_attr(rng, num, yamlable, rich)) if rich else (lambda: gen_attr(rng, num, yamlable))
     names = ["depth", "w", "age", "stage", "id2"]
     for nm in rng.sample(names, rng.randrange(0, 4)):
-        conf[nm] = gen_attr(rng, num, yamlable)
+        conf[nm] = ga()
     if rng.random() < 0.5:
         ex = {}
         for nm in rng.sample(["w", "len", "depth", "q"], rng.randrange(1, 3)):
-            ex[nm] = gen_attr(rng, num, yamlable)
+            ex[nm] = ga()
         conf["attrs"] = ex
     # non-numeric attributes (text labels, booleans): defined by some groups only
     if rng.random() < 0.3:
         conf["label"] = ["%s%d" % (rng.choice(["a", "farm ", "æ"]), i) for i in range(num)]
     if rng.random() < 0.2:
         conf.setdefault("attrs", {})["flag"] = [bool((i + g) % 2) for i in range(num)]
+    if rich and rng.random() < 0.25:
+        # an attribute with the name of a GeoJSON feature property (config-defined, in any kind of group)
+        nm = rng.choice(["region", "farmid"])
+        if rng.random() < 0.5:
+            conf[nm] = ga()
+        else:
+            conf.setdefault("attrs", {})[nm] = ga()
     # markers used by the oracle
+    tag = [float(g * 1000000 + i) for i in range(num)] if num != 2 else [float(g * 1000000), float(g * 1000000 + 1)]
+    if rich and rng.random() < 0.5:
+        conf["grp"] = g + 1                     # implicit markers; a group without explicit attributes has no `attrs`
+        conf["tag"] = tag
+        return form, conf
     conf.setdefault("attrs", {})
     conf["attrs"]["grp"] = g + 1
-    conf["attrs"]["tag"] = [float(g * 1000000 + i) for i in range(num)] if num != 2 else [float(g * 1000000), float(g * 1000000 + 1)]
+    conf["attrs"]["tag"] = tag
     return form, conf
+
+
+def geojson_props(conf):
+    """names of the feature properties a group's GeoJSON location brings along (empty for the other forms)"""
+    loc = conf.get("location")
+    if not isinstance(loc, str):
+        return set()
+    data = json.loads(loc)
+    layer = data if isinstance(data, dict) else data[0]
+    out = set()
+    for f in layer["features"]:
+        out |= set((f.get("properties") or {}).keys())
+    return out
 
 
 def materialise(conf):
